@@ -312,9 +312,18 @@ pub fn random_message(rng: &mut Rng) -> Vec<u8> {
 /// Error messages (and queries) whose text fields are long and carry multi-byte UTF-8 characters that
 /// straddle the cut points a decoder might truncate at (31/32, 63/64, 127/128, 255/256, ...), or
 /// bytes that are not UTF-8 at all.
-pub fn text_bomb(rng: &mut Rng) -> Vec<u8> {
+pub fn bomb_text(rng: &mut Rng) -> Vec<u8> {
     let cut = *rng.pick(&[16usize, 32, 64, 100, 120, 128, 200, 255, 256, 500, 512, 1000, 1024]);
     let ch: &[u8] = *rng.pick(&[&b"\xc3\xa9"[..], &b"\xe2\x82\xac"[..], &b"\xf0\x9f\x98\x80"[..], &b"\xff\xfe"[..], &b"\xc3"[..]]);
+    if rng.chance(1, 3) {
+        // multi-byte characters only (after 0..3 ASCII bytes): every cut point falls inside a character
+        // for one of the alignments
+        let mut text = vec![b'a'; rng.usize(0, 3)];
+        while text.len() < cut + 8 {
+            text.extend_from_slice(ch);
+        }
+        return text;
+    }
     // the character starts 1..len bytes before the cut
     let before = cut.saturating_sub(rng.usize(1, ch.len()));
     let mut text = vec![b'a'; before];
@@ -327,6 +336,11 @@ pub fn text_bomb(rng: &mut Rng) -> Vec<u8> {
             text.push(b'b');
         }
     }
+    text
+}
+
+pub fn text_bomb(rng: &mut Rng) -> Vec<u8> {
+    let text = bomb_text(rng);
     let tid: Vec<u8> = if rng.chance(1, 2) { b"aa".to_vec() } else { (rng.range(0, 80) as u32).to_be_bytes().to_vec() };
     let code = *rng.pick(&[201i64, 202, 203, 204, 205, 206, 207, 301, 302, 0, -1]);
     let msg = match rng.below(4) {
